@@ -524,4 +524,61 @@ theorem run_exhausted_ctx (qf : RepMap M → V × Int × Bool) (stream : Bool) (
   obtain ⟨o', h1, h2, h3, h4⟩ := run_exhausted qf stream x st o (.ctxDone c :: post) h hx
   exact ⟨o', h1, h2, h3, by rw [h4, exhaustedErr_ctx]⟩
 
+/-! ### "every node has failed" counts nodes, not errors
+
+The stream arm of the exhaustion test compares the *number of errors* with the number of targeted nodes.
+That is "every targeted node has failed" exactly when no node contributes two errors to one call — which is
+what the node channel guarantees since the repair of defect D18 (`Chan`: `C05.at_most_one_error`,
+`C05.error_is_last`: a request is answered with at most one error, after which its router is gone). -/
+
+/-- pigeonhole: a duplicate-free list of failing nodes, all of them targeted, that is as long as the
+    (duplicate-free) list of targeted nodes contains every targeted node -/
+theorem all_targets_failed (targets : List NodeId) (errs : List (NodeId × E))
+    (ht : targets.Nodup) (hone : (errs.map (·.1)).Nodup) (hsub : ∀ e ∈ errs, e.1 ∈ targets)
+    (hlen : errs.length = targets.length) : ∀ n ∈ targets, n ∈ errs.map (·.1) := by
+  have _ := ht -- not needed: the count argument only uses that the failing nodes are duplicate-free
+  intro n hn
+  apply Classical.byContradiction
+  intro hnot
+  have hsub' : errs.map (·.1) ⊆ targets.erase n := by
+    intro x hx
+    have hxn : x ≠ n := fun h => hnot (h ▸ hx)
+    obtain ⟨e, he, rfl⟩ := List.mem_map.1 hx
+    exact (List.mem_erase_of_ne hxn).2 (hsub e he)
+  have h1 := hone.length_le_of_subset hsub'
+  have hpos : 1 ≤ targets.length := List.length_pos_of_mem hn
+  rw [List.length_erase, if_pos hn, List.length_map] at h1
+  omega
+
+/-- **a server-stream call completes with Incomplete only when every targeted node has failed** (given that
+    a node contributes at most one error to a call): the stream arm of the exhaustion test holds exactly then -/
+theorem stream_exhausted_iff_all_failed (targets : List NodeId) (errs : List (NodeId × E)) (nReplies : Nat)
+    (ht : targets.Nodup) (hone : (errs.map (·.1)).Nodup) (hsub : ∀ e ∈ errs, e.1 ∈ targets) :
+    exhausted true errs.length nReplies targets.length = true ↔ ∀ n ∈ targets, n ∈ errs.map (·.1) := by
+  have hle : errs.length ≤ targets.length := by
+    have hs : errs.map (·.1) ⊆ targets := by
+      intro x hx
+      obtain ⟨e, he, rfl⟩ := List.mem_map.1 hx
+      exact hsub e he
+    have := hone.length_le_of_subset hs
+    rwa [List.length_map] at this
+  have hex : exhausted true errs.length nReplies targets.length = true ↔ errs.length = targets.length := by
+    simp [exhausted]
+  rw [hex]
+  constructor
+  · intro hlen
+    exact all_targets_failed targets errs ht hone hsub hlen
+  · intro hall
+    have hge : targets.length ≤ errs.length := by
+      have := ht.length_le_of_subset (l₂ := errs.map (·.1)) (fun x hx => hall x hx)
+      rwa [List.length_map] at this
+    omega
+
+/-- without that guarantee the count says nothing: the pinned code could report node 1 twice and complete a
+    call to nodes 1 and 2 although node 2 had neither answered nor failed -/
+theorem pinned_double_error_completes :
+    exhausted true ([(1, "handler failed"), (1, "stream is down")] : List (NodeId × String)).length 0 ([1, 2] : List NodeId).length = true ∧
+    ¬ (∀ n ∈ ([1, 2] : List NodeId), n ∈ ([(1, "handler failed"), (1, "stream is down")] : List (NodeId × String)).map (·.1)) := by
+  decide
+
 end GorumsV.C11
